@@ -76,6 +76,8 @@ class Exec(CMixin, ExprMixin, StmtMixin, CallMixin):
 
     def contract_loop(self, k, node):
         c = self.frame.contract
+        if (c is None or k not in c.loops) and getattr(self, 'auto_loops', False):
+            return {}
         if c is None or k not in c.loops:
             raise CannotBind('%s: loop %d (%s, line %s) has no invariant in the sidecar contract' % (
                 self.fname, k, loop_head_text(node), getattr(node, 'lineno', '?')))
@@ -198,6 +200,9 @@ class Exec(CMixin, ExprMixin, StmtMixin, CallMixin):
         try:
             v = self.ev(node, st2)
             return v
+        except PathEnd:
+            raise CannotBind('contract expression %r of %s is undefined in the current state (NULL / None '
+                             'dereference or missing value)' % (text if isinstance(text, str) else '?', self.fname))
         finally:
             self.spec_mode, self.spec_env, self.guards = saved
 
@@ -228,6 +233,9 @@ class Exec(CMixin, ExprMixin, StmtMixin, CallMixin):
                 outcome = self.run_function(finfo, contract, st, args)
                 results.append(outcome)
             except PathEnd:
+                if getattr(self, 'omp_ctx', None):
+                    self.omp_flush(self.cur_state)
+                    self.omp_ctx = None
                 continue
         return results
 
